@@ -346,6 +346,27 @@ def run_case(case):
         if attempt(p.generateTexTangentsAndBinormals)[0] == 0:
             fails += recheck(p, False, 'unbound-after-generateTexTangentsAndBinormals')
             fails += recheck(p.bind(M, matmap), True, 'bound-of-generated-tangents')
+    # in-place edits of the arrays behind the views (the supported way of moving points or re-indexing
+    # before saving): items must carry what the views give NOW.  Last, because it changes the data.
+    if ulen > 0 and p.vertex_index is not None:
+        def edit(P):
+            P.vertex[:, 0] += 10
+            if P.normal is not None and P.normal is not P.vertex:
+                P.normal[:, 1] -= 3
+            for t in P.texcoordset:
+                t[:, 0] += 1
+        if attempt(lambda: edit(b))[0] == 0:
+            fails += recheck(b, True, 'bound-after-inplace-data-edit')
+        if attempt(lambda: edit(p))[0] == 0:
+            fails += recheck(p, False, 'unbound-after-inplace-data-edit')
+            fails += recheck(p.bind(M, matmap), True, 'bound-of-edited')
+
+        def reindex():
+            flat = p.index.reshape(-1, p.index.shape[-1])
+            flat[:] = flat[::-1].copy()          # reverse the corner rows: every index stays in range
+        if attempt(reindex)[0] == 0:
+            fails += recheck(p, False, 'unbound-after-inplace-index-edit')
+            fails += recheck(p.bind(M, matmap), True, 'bound-of-reindexed')
     return {'code': 0, 'u': [ulen, uiter, gets, uz], 'b': [blen, bshapes, blegacy, bz], 'fails': fails}
 
 
